@@ -597,6 +597,13 @@ func (fc *FnCtx) evalCallWith(st *State, call *ast.CallExpr, preRecv *Val, preAr
 		if f.Pkg() != nil && f.Pkg().Path() == "fmt" && f.Name() == "Errorf" && len(rs) == 1 {
 			st.assume("(> " + rs[0].T + " 0)")
 		}
+		// error constructors return a non-nil error (errors.New, serviceerror.NewXxx)
+		if f.Pkg() != nil && len(rs) == 1 && strings.HasPrefix(f.Name(), "New") &&
+			(f.Pkg().Path() == "errors" || strings.HasSuffix(f.Pkg().Path(), "/serviceerror")) {
+			if _, isIface := rs[0].Ty.Underlying().(*types.Interface); isIface || true {
+				st.assume("(> " + rs[0].T + " 0)")
+			}
+		}
 		return rs
 	}
 	// receiver and arguments
